@@ -6,7 +6,7 @@
    and counts / output sizes stay within the declared capacities.  They are about [Fixed], the
    code after the proposed patches; the witnesses at the end show the pinned code faulting. *)
 From GmVerif Require Import Base.ListX Base.Bytes Codec.Der Codec.DerProofs Codec.SafetyProofs
-  Codec.Hex Codec.HexProofs Codec.Base64 Codec.Base64Proofs Codec.Base64Safety Codec.Time Codec.TimeProofs Codec.Pkcs Codec.Pem Codec.PemProofs.
+  Codec.Hex Codec.HexProofs Codec.Base64 Codec.Base64Proofs Codec.Base64Safety Codec.Time Codec.TimeProofs Codec.Pkcs Codec.Pem Codec.PemProofs Codec.PkcsProofs Codec.PkcsOpen.
 Local Open Scope N_scope.
 
 Theorem C06_length_no_fault : forall inp, len_from_der inp <> Fault.
@@ -162,6 +162,30 @@ Theorem C06_pem_read_consumes_prefix : forall name inp maxlen d rest,
   pem_read name inp maxlen = Ok (d, rest) -> exists pre, inp = pre ++ rest.
 Proof. exact pem_read_rest_suffix. Qed.
 Print Assumptions C06_pem_read_consumes_prefix.
+
+(* ---- composite decoders: algorithm identifiers, PBES2 / EncryptedPrivateKeyInfo, SM2 ciphertext and keys *)
+Theorem C06_algorithm_identifiers_no_fault : forall inp,
+  pk_algor_from_der inp <> Fault /\ enc_algor_from_der inp <> Fault /\ pbkdf2_params_from_der inp <> Fault.
+Proof. exact (fun inp => conj (pk_algor_from_der_nofault inp) (conj (enc_algor_from_der_nofault inp) (pbkdf2_params_from_der_nofault inp))). Qed.
+Print Assumptions C06_algorithm_identifiers_no_fault.
+
+Theorem C06_encrypted_private_key_info_no_fault : forall inp, p8e_from_der inp <> Fault.
+Proof. exact p8e_from_der_nofault. Qed.
+Print Assumptions C06_encrypted_private_key_info_no_fault.
+
+Theorem C06_sm2_ciphertext_no_fault : forall inp, sm2_ct_from_der inp <> Fault.
+Proof. exact sm2_ct_from_der_nofault. Qed.
+Print Assumptions C06_sm2_ciphertext_no_fault.
+
+Theorem C06_sm2_keys_no_fault : forall pub_of pt_ok inp,
+  sm2_priv_from_der pub_of pt_ok inp <> Fault /\ sm2_p8_from_der pub_of pt_ok inp <> Fault.
+Proof. exact (fun pub_of pt_ok inp => conj (sm2_priv_from_der_nofault pub_of pt_ok inp) (sm2_p8_from_der_nofault pub_of pt_ok inp)). Qed.
+Print Assumptions C06_sm2_keys_no_fault.
+
+Theorem C06_encrypted_key_open_no_fault : forall pub_of pt_ok kdf cbcdec pass inp,
+  sm2_p8_open_c pub_of pt_ok kdf cbcdec pass inp <> Fault.
+Proof. exact sm2_p8_open_c_nofault. Qed.
+Print Assumptions C06_encrypted_key_open_no_fault.
 
 (* ---- witnesses: the literal model of the pinned tree faults *)
 Theorem C06_refuted_oid_33_arcs :
